@@ -527,7 +527,8 @@ def scryptVerifySalt (setting : Bytes) : Bool :=
     | 0, _ => true
     | fuel + 1, i =>
       if i < setting.length then
-        if ¬ scryptSaltChar (cat setting i) then (cat setting (i - 1) == 36)
+        -- properly terminated salt: what follows is not examined, except that it must not contain another '$'
+        if ¬ scryptSaltChar (cat setting i) then (cat setting (i - 1) == 36) && !((setting.drop i).contains 36)
         else go fuel (i + 1)
       else true
   go (setting.length + 1) 14
